@@ -77,6 +77,53 @@ def unpackLit (O : Oracle) : List (V × V) → V → Option V
       | .enum _ _ => if O.eq v cw.2 then some cw.1 else unpackLit O cs v
       | _ => if O.eq v cw.1 then some cw.1 else unpackLit O cs v
 
+/-- input keys outside the accepted set (aliases, or names; with
+    allow_deserialization_not_by_alias both) -/
+def extraKeysOf (cfg : Cfg) (initFs : List (FieldDef × Ty)) (kvs : List (V × V)) : List V :=
+  let allowed : List String :=
+    initFs.map (fun ft => ft.1.alias.getD ft.1.name)
+      ++ (if cfg.allowNotByAlias then initFs.map (fun ft => ft.1.name) else [])
+  (kvs.map (·.1)).filter (fun k => !(allowed.any (fun a => k == V.str a)))
+
+/-- the frame of the generated `from_dict`: argument check, extra-keys check, field blocks
+    (`fieldsF`), constructor call -/
+def fromDict (cls : String) (cfg : Cfg) (fs : List (FieldDef × Ty)) (d : V)
+    (fieldsF : List (V × V) → R (List (String × V))) : R V :=
+  let initFs := fs.filter (fun ft => ft.1.init)
+  if initFs.isEmpty then
+    -- no constructor parameter is read: the input is not even looked at
+    match defaultsOnly fs with
+    | some vals => .ok (buildInst cls vals)
+    | none => raisePy .typeError
+  else
+    match d with
+    | .map _ kvs =>
+        let extra := extraKeysOf cfg initFs kvs
+        if cfg.forbidExtraKeys && !extra.isEmpty then .error (.extraKeys extra cls)
+        else do
+          let vals ← fieldsF kvs
+          pure (buildInst cls vals)
+    | _ =>
+        -- d.keys() / d.get(...) raise AttributeError → "should be a dict instance"
+        .error (.notADict cls)
+
+/-- build the canonical collection class from the converted elements -/
+def finishColl (o : CollO) (r : List V) : R V :=
+  match o with
+  | .set | .frozenset => if r.all pyHashable then .ok (.coll o r) else raisePy .typeError
+  | .tuple | .chainmap => raisePy .other
+  | .list | .deque => .ok (.coll o r)
+
+/-- `E(value)`: a member of E is returned as is, otherwise lookup by value -/
+def unpackEnum (O : Oracle) (cls : String) (ms : List (String × V)) (v : V) : R V :=
+  match v with
+  | .enum c m =>
+      if c == cls && ms.any (fun nm => nm.1 == m) then .ok v else raisePy .valueError
+  | _ =>
+    match ms.find? (fun nm => O.eq v nm.2) with
+    | some nm => .ok (.enum cls nm.1)
+    | none => raisePy .valueError
+
 mutual
 def unpack (O : Oracle) (cx : Cx) (fx : Fx) : Ty → V → R V
   | .any, v => .ok v
@@ -86,15 +133,7 @@ def unpack (O : Oracle) (cx : Cx) (fx : Fx) : Ty → V → R V
   | .float, v => O.run .float v
   | .str, v => O.run .str v
   | .leaf k, v => O.run (.parse k) v
-  | .enum cls ms, v =>
-      -- `E(value)`: a member of E is returned as is, otherwise lookup by value
-      match v with
-      | .enum c m =>
-          if c == cls && ms.any (fun nm => nm.1 == m) then .ok v else raisePy .valueError
-      | _ =>
-        match ms.find? (fun nm => O.eq v nm.2) with
-        | some nm => .ok (.enum cls nm.1)
-        | none => raisePy .valueError
+  | .enum cls ms, v => unpackEnum O cls ms v
   | .lit vals, v =>
       match unpackLit O vals v with
       | some c => .ok c
@@ -117,11 +156,7 @@ def unpack (O : Oracle) (cx : Cx) (fx : Fx) : Ty → V → R V
   | .coll o t, v => do
       let xs ← pyIterO O v
       let r ← xs.mapM (unpack O cx fx t)
-      match o with
-      | .set | .frozenset =>
-          if r.all pyHashable then pure (.coll o r) else raisePy .typeError
-      | .tuple | .chainmap => raisePy .other
-      | _ => pure (.coll o r)
+      finishColl o r
   | .map o k t, v => do
       let kvs ← pyItems v
       let r ← kvs.mapM (kvMH (unpack O cx fx k) (if o == .counter then O.run .int else unpack O cx fx t))
@@ -158,26 +193,7 @@ def unpack (O : Oracle) (cx : Cx) (fx : Fx) : Ty → V → R V
       let b ← unpackOpt O cx fx opt v
       pure (.map .dict (a ++ b))
   | .dc cls cfg fs, d =>
-      let initFs := fs.filter (fun ft => ft.1.init)
-      if initFs.isEmpty then
-        -- no constructor parameter is read: the input is not even looked at
-        match defaultsOnly fs with
-        | some vals => .ok (buildInst cls vals)
-        | none => raisePy .typeError
-      else
-        match d with
-        | .map _ kvs =>
-            let allowed : List String :=
-              initFs.map (fun ft => ft.1.alias.getD ft.1.name)
-                ++ (if cfg.allowNotByAlias then initFs.map (fun ft => ft.1.name) else [])
-            let extra := (kvs.map (·.1)).filter (fun k => !(allowed.any (fun a => k == V.str a)))
-            if cfg.forbidExtraKeys && !extra.isEmpty then .error (.extraKeys extra cls)
-            else do
-              let vals ← unpackFields O { cx with ntAsDict := cfg.ntAsDict } cls cfg fs kvs
-              pure (buildInst cls vals)
-        | _ =>
-            -- d.keys() / d.get(...) raise AttributeError → "should be a dict instance"
-            .error (.notADict cls)
+      fromDict cls cfg fs d (unpackFields O { cx with ntAsDict := cfg.ntAsDict } cls cfg fs)
 
 /-- members in declaration order: a scalar member returns the value unchanged when the
     exact type matches; an identity member returns at once; any other member is tried. -/
@@ -194,7 +210,7 @@ def unionWalk (O : Oracle) (cx : Cx) (fx : Fx) : List Ty → V → Option V
 def unpackIdx (O : Oracle) (cx : Cx) (fx : Fx) : List Ty → V → Int → R (List V)
   | [], _, _ => .ok []
   | t :: ts, v, i => do
-      let x ← pyIndexO O v i
+      let x ← (if t.constUnpack then pure V.none else pyIndexO O v i)
       let a ← unpack O cx fx t x
       let r ← unpackIdx O cx fx ts v (i + 1)
       pure (a :: r)
@@ -202,7 +218,7 @@ def unpackIdx (O : Oracle) (cx : Cx) (fx : Fx) : List Ty → V → Int → R (Li
 def unpackNT (O : Oracle) (cx : Cx) (fx : Fx) : List (String × Ty) → V → Int → Bool → R (List V)
   | [], _, _, _ => .ok []
   | (n, t) :: fs, v, i, asD => do
-      let x ← (if asD then pyGetItemStr v n else pyIndexO O v i)
+      let x ← (if t.constUnpack then pure V.none else if asD then pyGetItemStr v n else pyIndexO O v i)
       let a ← unpack O cx fx t x
       let r ← unpackNT O cx fx fs v (i + 1) asD
       pure (a :: r)
@@ -211,16 +227,19 @@ def unpackNT (O : Oracle) (cx : Cx) (fx : Fx) : List (String × Ty) → V → In
 def unpackNTd (O : Oracle) (cx : Cx) (fx : Fx) : List (String × Ty) → V → Int → Bool → R (List V)
   | [], _, _, _ => .ok []
   | (n, t) :: fs, v, i, asD =>
-      match (do let x ← (if asD then pyGetItemStr v n else pyIndexO O v i); unpack O cx fx t x) with
-      | .ok a => do
-          let r ← unpackNTd O cx fx fs v (i + 1) asD
-          pure (a :: r)
+      match (if t.constUnpack then pure V.none else if asD then pyGetItemStr v n else pyIndexO O v i) with
       | .error e => if e.isKind .indexError then .ok [] else .error e
+      | .ok x =>
+        match unpack O cx fx t x with
+        | .ok a => do
+            let r ← unpackNTd O cx fx fs v (i + 1) asD
+            pure (a :: r)
+        | .error e => if !cx.fixK3 && e.isKind .indexError then .ok [] else .error e
 
 def unpackReq (O : Oracle) (cx : Cx) (fx : Fx) : List (String × Ty) → V → R (List (V × V))
   | [], _ => .ok []
   | (n, t) :: fs, v => do
-      let x ← pyGetItemStr v n
+      let x ← (if t.constUnpack then pure V.none else pyGetItemStr v n)
       let a ← unpack O cx fx t x
       let r ← unpackReq O cx fx fs v
       pure ((V.str n, a) :: r)
